@@ -149,6 +149,8 @@ pub fn statement_cases() -> Vec<Case> {
         ("random-max", "VAR imax = 2147483647\nStart {RANDOM(0, imax)} {RANDOM(1, imax)}.\n-> END\n"),
         ("seed-random-string", "~ SEED_RANDOM(\"x\")\nStart {RANDOM(1, 2)}.\n-> END\n"),
         ("seed-random-max", "VAR imax = 2147483647\n~ SEED_RANDOM(imax)\nStart {RANDOM(1, 6)} {RANDOM(1, 6)}.\n-> END\n"),
+        ("seed-random-negative", "LIST colours = (red), (green), (blue)\n~ SEED_RANDOM(0 - 7)\nStart {RANDOM(1, 6)} {LIST_RANDOM(colours)} {LIST_RANDOM(colours)} {~a|b|c} {RANDOM(1, 6)} {LIST_RANDOM(colours)}.\n-> END\n"),
+        ("seed-random-min", "LIST colours = (red), (green), (blue)\nVAR imin = 0\n~ imin = (0 - 2147483647) - 1\n~ SEED_RANDOM(imin)\nStart {RANDOM(1, 6)} {LIST_RANDOM(colours)} {LIST_RANDOM(colours)} {~a|b|c} {RANDOM(imin, 0 - 1)}.\n-> END\n"),
         ("turns-since-int", "Start {TURNS_SINCE(3)}.\n-> END\n"),
         ("read-count-of-int", "VAR t = 3\nStart {READ_COUNT(t)}.\n-> END\n"),
         ("list-range-wrong-types", "LIST l = a, (b), c\nStart {LIST_RANGE(l, \"x\", true)} {LIST_RANGE(3, 1, 2)}.\n-> END\n"),
